@@ -83,6 +83,13 @@ def programs(ctx):
         p.make(1, 'T', a, u)
         p.make(2, 'T', b, v, 'frac')
         p.hasheq(1, 2)
+    # zero is zero only within one scale: without a common scale, zeros in different units are different quantities
+    for (t, u, v) in (('T', 'tc', 'tf'), ('T', 'tc', 'tk'), ('T', 'tf', 'tk'), ('Money', 'Z2', 'Z3'), ('Money', 'Z0', 'Z2'),
+                      ('N', 'p', 'q')):
+        p.make(1, t, F(0), u)
+        p.make(2, t, F(0), v, 'frac')
+        p.hasheq(1, 2)
+        p.hasheq(2, 1)
     p.make(1, 'Money', F(5), 'Z2')
     p.make(2, 'Money', F(5), 'Z3')
     p.hasheq(1, 2)
